@@ -119,6 +119,23 @@ Proof.
   - intros H Happ. subst name. cbn. rewrite Happ, Ho. split; reflexivity.
 Qed.
 
+(** A request no worker code handles — no proxy is a destination of it, no arm of read_channel,
+    notify or notify_proxys answers it: the verbs of the main process, a variant the table does not
+    know, a request without request_type — gets its one answer from the fallback of notify_proxys,
+    and that answer is a refusal whatever the oracle says: nothing was done, the client is not told OK. *)
+Theorem unserved_request_is_refused : forall (view payload : Type) (dispatch : view -> string -> payload -> view)
+    (w : worker view) (r : request payload) o w' out,
+    w_alive w = true -> unserved (r_name r) = true ->
+    handle dispatch w r o = (w', out) -> out = [mkResp (r_id r) SFailure].
+Proof. exact handle_unserved. Qed.
+
+(** ... and these are the variants it applies to (computed on the generated table) *)
+Theorem main_process_verbs_are_unserved :
+  forallb unserved ["None"; "NoSuchVariant"; "SaveState"; "LoadState"; "ListWorkers"; "ListFrontends"; "ListListeners";
+                    "CountRequests"; "SubscribeEvents"; "UpgradeMain"; "UpgradeWorker"; "LaunchWorker";
+                    "ReloadConfiguration"; "QueryCertificatesFromTheState"; "QueryHealthChecks"] = true.
+Proof. vm_compute. reflexivity. Qed.
+
 Example one_final_answer_nonvacuous :
   snd (run (fun (v : nat) _ (p : nat) => v + p) (mkW 0 3%Z 3 None true)
         [EReq (mkReq 1 "AddCluster" 5) (mkOr 0 0 1 0 (fun _ => false) true true);
@@ -131,7 +148,7 @@ Example one_final_answer_nonvacuous :
          EReq (mkReq 8 "HardStop" 0) (mkOr 0 0 0 0 (fun _ => false) true true);
          EDrained;
          EReq (mkReq 9 "Status" 0) (mkOr 0 0 0 0 (fun _ => false) true true)])
-  = [mkResp 1 SOk; mkResp 2 SFailure; mkResp 3 SOk; mkResp 4 SOk; mkResp 5 SProcessing; mkResp 6 SOk;
+  = [mkResp 1 SOk; mkResp 2 SFailure; mkResp 3 SOk; mkResp 4 SFailure; mkResp 5 SProcessing; mkResp 6 SOk;
      mkResp 7 SFailure; mkResp 8 SProcessing; mkResp 5 SFailure; mkResp 8 SOk]
   /\ List.length arms_table >= 50.
 Proof. vm_compute. split; [reflexivity|]. repeat constructor. Qed.
